@@ -32,7 +32,7 @@ import (
 )
 
 var st = stat.New("C08",
-	"Case = {1..3 proxy objects to one scripted server - either for distinct servant names (separate connections) or all for the same name (as repeated StringToProxy calls: one shared adapter and connection), 1..48 calls issued by 1..48 worker goroutines (a worker issues its calls sequentially, workers run concurrently) each call (a sixth of them one-way: ids from the same sequence, nothing awaited, the reply plan still played against the id) with a unique payload token and a context deadline of 250 or 400 ms (a fifth of the calls: a context without deadline that is cancelled after that time), the process-wide request id counter preset (random, near MaxInt32, near 0 from below), in a third of the cases the proxies reach the server through a byte-exact relay that ends TCP segments 1..40 bytes after a packet boundary (one read returns complete replies plus the beginning of the next), in a quarter of the cases the calls are started one at a time with the id counter advanced so that the ids in flight are 2^8..2^24 apart (congruent modulo the smaller powers of two), in a third of the cases keep-alive pings (one-way tars_ping, ids from the same sequence) sent on the same connections every 2..25 ms while the calls run, per caller a reply plan: 0..3 acts from {own reply, duplicate, reply with the id of another caller, id 0, unknown id, own id marked one-way} with delays 0..40 ms or late (after the deadline), or silence}. Oracle (history invariant over the server log): a caller returns either an error or a response whose serial was sent with id field == the id of its own request and packet type normal; request ids on the wire are never 0 and pairwise distinct within the batch; a caller for whom a correctly addressed reply was written on its connection at least 150 ms before its deadline must succeed. Non-trivial = >=4 calls in flight and >=1 duplicate or foreign-id reply and replies not in request order. Distinct = distinct case JSON.",
+	"Case = {1..3 proxy objects to one scripted server - either for distinct servant names (separate connections) or all for the same name (as repeated StringToProxy calls: one shared adapter and connection), 1..48 calls issued by 1..48 worker goroutines (64..96 calls by 8..16 workers on one proxy when the client admits only 3 calls in flight) (a worker issues its calls sequentially, workers run concurrently) each call (a sixth of them one-way: ids from the same sequence, nothing awaited, the reply plan still played against the id) with a unique payload token and a context deadline of 250 or 400 ms (a fifth of the calls: a context without deadline that is cancelled after that time), the process-wide request id counter preset (random, near MaxInt32, near 0 from below), in a fifth of the cases the client admits only 3 calls in flight per proxy (objqueuemax) so that further calls are refused after their id was drawn, in a third of the cases the proxies reach the server through a byte-exact relay that ends TCP segments 1..40 bytes after a packet boundary (one read returns complete replies plus the beginning of the next), in a quarter of the cases the calls are started one at a time with the id counter advanced so that the ids in flight are 2^8..2^24 apart (congruent modulo the smaller powers of two), in a third of the cases keep-alive pings (one-way tars_ping, ids from the same sequence) sent on the same connections every 2..25 ms while the calls run, per caller a reply plan: 0..3 acts from {own reply, duplicate, reply with the id of another caller, id 0, unknown id, own id marked one-way} with delays 0..40 ms or late (after the deadline), or silence}. Oracle (history invariant over the server log): a caller returns either an error or a response whose serial was sent with id field == the id of its own request and packet type normal; request ids on the wire are never 0 and pairwise distinct within the batch; a caller for whom a correctly addressed reply was written on its connection after its request had arrived and at least 150 ms before its deadline must succeed (a packet that happens to carry the id of a request not yet sent - possible for the scripted unknown-id replies when ids are a power of two apart - is not a reply to it). Non-trivial = >=4 calls in flight and >=1 duplicate or foreign-id reply and replies not in request order. Distinct = distinct case JSON.",
 	"the scripted server's log is the ground truth; replies may legitimately carry foreign payloads, so payloads are never compared",
 	"schedules are sampled through generated delays, not enumerated; id uniqueness across a full 2^31 wrap is out of reach")
 
@@ -78,6 +78,9 @@ type Case struct {
 	// segments k bytes after a packet boundary, so that one read of the client returns
 	// complete replies followed by the first k bytes of the next one
 	RelayCut int `json:"relay_cut,omitempty"`
+	// SmallObjQueue: the client admits only 3 calls in flight per proxy (objqueuemax); the
+	// calls beyond that are refused with an error, after their request id has been drawn
+	SmallObjQueue bool `json:"small_obj_queue,omitempty"`
 }
 
 func draw(rt *rapid.T) Case {
@@ -87,6 +90,7 @@ func draw(rt *rapid.T) Case {
 	if rapid.IntRange(0, 2).Draw(rt, "keepalive") == 0 {
 		c.KeepAliveMs = rapid.SampledFrom([]int{2, 7, 25}).Draw(rt, "keepaliveMs")
 	}
+	c.SmallObjQueue = rapid.IntRange(0, 4).Draw(rt, "smallObjQueue") == 0
 	if rapid.IntRange(0, 2).Draw(rt, "relayed") == 0 {
 		c.RelayCut = rapid.SampledFrom([]int{1, 3, 4, 5, 9, 10, 12, 15, 20, 40}).Draw(rt, "relayCut")
 	}
@@ -96,6 +100,13 @@ func draw(rt *rapid.T) Case {
 	n := rapid.OneOf(rapid.IntRange(1, 8), rapid.IntRange(4, 48)).Draw(rt, "ncallers")
 	// workers: some issue a single call, some a sequence of calls on the same proxy
 	nw := rapid.IntRange(1, n).Draw(rt, "nworkers")
+	if c.SmallObjQueue {
+		// many more concurrent callers than the client admits, each issuing several calls in
+		// sequence (the later ones draw their ids while earlier calls are still outstanding)
+		n = rapid.IntRange(64, 96).Draw(rt, "ncallersSmallQueue")
+		nw = rapid.IntRange(8, 16).Draw(rt, "nworkersSmallQueue")
+		c.NProxies, c.SharedName = 1, false
+	}
 	workerProxy := make([]int, nw)
 	for w := range workerProxy {
 		workerProxy[w] = rapid.IntRange(0, c.NProxies-1).Draw(rt, "proxy")
@@ -129,11 +140,12 @@ func draw(rt *rapid.T) Case {
 }
 
 var (
-	srvOnce sync.Once
-	srv     *peer.Server
-	comm    *tars.Communicator
-	relay   *rpcprops.Relay
-	objSeq  int64
+	srvOnce   sync.Once
+	srv       *peer.Server
+	comm      *tars.Communicator
+	commSmall *tars.Communicator // objqueuemax 3
+	relay     *rpcprops.Relay
+	objSeq    int64
 )
 
 func setup(t *testing.T) {
@@ -144,6 +156,10 @@ func setup(t *testing.T) {
 			t.Fatalf("VERIF-INFRA listen: %v", err)
 		}
 		comm = tars.NewCommunicator()
+		commSmall = tars.NewCommunicator()
+		small := *commSmall.Client
+		small.ObjQueueMax = 3
+		commSmall.Client = &small
 		relay, err = rpcprops.StartRelay(srv.Addr)
 		if err != nil {
 			t.Fatalf("VERIF-INFRA relay: %v", err)
@@ -162,8 +178,9 @@ type result struct {
 func run(c Case) *stat.Failure {
 	srv.ResetLog()
 	var mu sync.Mutex
-	idOf := map[int]int32{} // caller -> request id
-	connOf := map[int]int{} // caller -> server connection
+	idOf := map[int]int32{}     // caller -> request id
+	connOf := map[int]int{}     // caller -> server connection
+	atOf := map[int]time.Time{} // caller -> moment its request arrived at the server
 	srv.Handler = func(s *peer.Server, r *peer.Req) {
 		if len(r.Buffer) < 4 {
 			return
@@ -175,6 +192,7 @@ func run(c Case) *stat.Failure {
 		mu.Lock()
 		idOf[tok] = r.ID
 		connOf[tok] = r.Conn
+		atOf[tok] = r.At
 		mu.Unlock()
 		acts := c.Callers[tok].Acts
 		go func() {
@@ -223,6 +241,9 @@ func run(c Case) *stat.Failure {
 			obj = fmt.Sprintf("Verif.C08.Obj%d@tcp -h 127.0.0.1 -p %d -t 60000", atomic.AddInt64(&objSeq, 1), port)
 		}
 		proxies[i] = tars.NewServantProxy(comm, obj)
+		if c.SmallObjQueue {
+			proxies[i] = tars.NewServantProxy(commSmall, obj)
+		}
 	}
 	presetMsgID(c.IDBase)
 	results := make([]result, len(c.Callers))
@@ -315,6 +336,18 @@ func run(c Case) *stat.Failure {
 	}
 	reqs, sent, _ := srv.Snapshot()
 	srv.CloseAllConns() // fresh connections for the next case
+	refused := 0
+	for _, r := range results {
+		if r.err != nil && strings.Contains(r.err.Error(), "invoke queue is full") {
+			refused++
+		}
+	}
+	if refused > 0 {
+		st.Class("calls-refused-invoke-queue-full", int64(refused))
+	}
+	if os.Getenv("VERIF_C08_DEBUG") != "" {
+		fmt.Printf("DEBUG refused=%d reqs=%d\n", refused, len(reqs))
+	}
 
 	// ids on the wire: never 0, pairwise distinct
 	seen := map[int32]bool{}
@@ -357,7 +390,7 @@ func run(c Case) *stat.Failure {
 		}
 		deadline := r.start.Add(time.Duration(c.Callers[i].TimeoutMs) * time.Millisecond)
 		for _, s := range sent {
-			if s.Serial != 0 && s.ID == id && s.Kind != "oneway-own" && s.Err == nil && s.Conn == connOf[i] && s.At.Before(deadline.Add(-150*time.Millisecond)) {
+			if s.Serial != 0 && s.ID == id && s.Kind != "oneway-own" && s.Err == nil && s.Conn == connOf[i] && !s.At.Before(atOf[i]) && s.At.Before(deadline.Add(-150*time.Millisecond)) {
 				return stat.Failf("lost-delivery", "caller %d (request id %d) failed with %q although a correctly addressed reply (serial %d, kind %s) was written on its connection %v before its deadline", i, id, r.err, s.Serial, s.Kind, deadline.Sub(s.At).Round(time.Millisecond))
 			}
 		}
@@ -418,6 +451,9 @@ func TestC08(t *testing.T) {
 		}
 		if c.RelayCut > 0 {
 			cls = append(cls, "replies-resegmented-by-relay")
+		}
+		if c.SmallObjQueue {
+			cls = append(cls, "calls-refused-by-objqueuemax")
 		}
 		if c.Stride > 0 {
 			cls = append(cls, "ids-a-power-of-two-apart")
